@@ -172,7 +172,7 @@ def run(ctx):
     for _ in range(n):
         if rng.random() < 0.35:
             # configurators; a third of them rich in choices nested below choices (defaults below defaults)
-            a, o, t = valid_configurator(rng, ctx.quick, nest_p=0.3 if rng.random() < 0.65 else 0.9)
+            a, o, t = valid_configurator(rng, ctx.quick, nest_p=0.3 if rng.random() < 0.65 else 0.9, odd_items_p=0.25)
         else:
             a, o, t = gen_valid(rng, ctx.quick, classes=[c for c in CLASSES if not c.startswith("cc")], wide_p=0.02, empty_p=0.04)
         do_case(ctx, {"ast": a})
